@@ -51,6 +51,8 @@ def generate(tier, seed):
                       "only": ["valid", "band"], "limit": 15 if tier == "quick" else 100, "rng": seed * 1000 + i})
         cases.append({"cid": f"mix-free-{i}", "family": "mixture-free", "kind": "solve", "spec": spec,
                       "plan": {"solver": {"random_values": True}, "py_seed": seed + i}})
+    # L7: the repository's own tests under the universal monitors (every tier)
+    cases.append({"cid": "suite-replay", "family": "suite", "kind": "suite", "jobs": 8})
     return cases
 
 
